@@ -66,3 +66,7 @@ Definition schema_step (acc : bytes * bool) (sb : bytes) : bytes * bool :=
 Definition schema_fold (s0 : bytes) (l : list bytes) : bytes * bool := fold_left schema_step l (s0, false).
 Definition detect_schema_ok (s0 : bytes) (l : list bytes) (s : bytes) (conflict : bool) : bool :=
   let '(e, c) := schema_fold s0 l in Bool.eqb conflict c && bytes_eqb s (if c then [] else e).
+
+(** Exactly when the schema URL of a triple does not depend on the grouping. *)
+Definition schema_assoc_cond (sa sb sc : bytes) : bool :=
+  is_empty sa || is_empty sb || is_empty sc || bytes_eqb sa sc.
